@@ -124,7 +124,9 @@ func exec(planJSON []byte, run *core.Run) {
 		pan, v, st := core.Try(func() { doOp(op, run) })
 		if pan {
 			// a panic is part of the observable behaviour: it must be the same under every configuration
-			run.Event("prim", "v", op.K, "panic", core.PanicClass(v), st)
+			// (the class only: a stack trace carries argument addresses that differ run to run)
+			_ = st
+			run.Event("prim", "v", op.K, "panic", core.PanicClass(v))
 		}
 		run.T(op.K)
 		run.Tick(1)
